@@ -16,7 +16,7 @@ def textCovered : List String :=
 
 theorem text_covered_types :
     textCovered = ["AFSDB", "AVC", "CAA", "CDNSKEY", "CDS", "CNAME", "DHCID", "DLV", "DNAME", "DNSKEY", "DS", "EID", "EUI48", "EUI64", "GID", "HINFO", "ISDN", "KEY", "KX", "L64", "LP", "MB", "MD", "MF", "MG",
-      "MINFO", "MR", "MX", "NID", "NIMLOC", "NINFO", "NS", "NSAPPTR", "OPENPGPKEY", "PTR", "PX", "RESINFO", "RKEY", "RP", "RT", "SOA", "SPF", "SRV",
+      "MINFO", "MR", "MX", "NID", "NIMLOC", "NINFO", "NS", "NSAPPTR", "NSEC3PARAM", "OPENPGPKEY", "PTR", "PX", "RESINFO", "RKEY", "RP", "RT", "SOA", "SPF", "SRV",
       "SSHFP", "TA", "TALINK", "TLSA", "TXT", "UID", "UINFO", "URI", "X25", "ZONEMD"] := by
   decide
 
@@ -53,9 +53,10 @@ theorem fits_exist (P Q : List TStep) (h : matchPlans P Q = true) : ∃ vals val
   · exact ⟨_, _, Fits.pair [] [] (by simp) (by simp)⟩
   · exact ⟨_, _, Fits.first [] (by simp)⟩
   · exact ⟨_, _, Fits.octet []⟩
+  · exact ⟨_, _, Fits.salt [] (Or.inl rfl)⟩
   · exact ⟨_, _, Fits.rest _ _ [65] ⟨by simp, by decide⟩⟩
   · exact ⟨_, _, Fits.tok _ [65] ⟨by simp, by decide⟩⟩
-  · rename_i p q _
+  · rename_i p q _ _
     obtain ⟨v, hv⟩ := hfield p q h
     exact ⟨_, _, Fits.last p q v h hv⟩
   · rename_i p u q u'
